@@ -560,6 +560,9 @@ pub fn plan_histories(tier: Tier) -> Vec<Plan> {
         Layer::Not("a/**".into(), NotForm::Text),
         Layer::Not("**/b".into(), NotForm::Text),
         Layer::Not(".a/**".into(), NotForm::Text),
+        // a partitioned negation: the directory `a` matches the exhaustive AND the
+        // nonexhaustive alternative
+        Layer::Not("a/**".into(), NotForm::AnyText("**/a".into())),
     ];
     let bases = vec![
         BaseWalk::Path,
